@@ -87,4 +87,36 @@ mod verif_number {
     }
 
 
+
+    /// C01, big-decimal float fallback: under the type invariant its own comments state (num_digits <= MAX_DIGITS,
+    /// every stored digit <= 9) `Decimal::round` neither indexes outside the 768-byte buffer nor overflows u64
+    /// (at most 18 digits are accumulated, + 1 for rounding), whatever decimal_point / truncated are; and
+    /// `try_add_digit` stores inside the buffer or only counts. Loops bounded by the constant 18: complete.
+    #[kani::proof]
+    #[kani::unwind(21)]
+    fn decimal_round_add_digit_in_bounds() {
+        use crate::decimal::Decimal;
+        let mut d = Decimal::default();
+        d.num_digits = kani::any();
+        d.decimal_point = kani::any();
+        d.truncated = kani::any();
+        kani::assume(d.num_digits <= Decimal::MAX_DIGITS);
+        let head: [u8; 20] = kani::any();
+        let mut i = 0;
+        while i < 20 {
+            kani::assume(head[i] <= 9);
+            d.digits[i] = head[i];
+            i += 1;
+        }
+        let n = d.round();
+        if d.num_digits == 0 || d.decimal_point < 0 { assert!(n == 0); }
+        if d.decimal_point >= 0 && d.decimal_point <= 18 { assert!(n <= 1_000_000_000_000_000_000); }
+        kani::cover!(n == 1_000_000_000_000_000_000);
+        let digit: u8 = kani::any();
+        let before = d.num_digits;
+        d.try_add_digit(digit);
+        assert!(d.num_digits == before + 1);
+        if before < Decimal::MAX_DIGITS { assert!(d.digits[before] == digit); }
+    }
+
 }
